@@ -107,7 +107,7 @@ func (t *tcpTransport) SetEncryption(ctx context.Context, e SessionEncryption) e
 	}
 
 	// We convert existing connection to TLS
-	if err := tlsConn.Handshake(); err != nil {
+	if err := tlsConn.HandshakeContext(ctx); err != nil {
 		return err
 	}
 
